@@ -109,8 +109,10 @@ CLAIMS.update({
     "C17": dict(
         technique="Lean 4 theorems about the conversion model + correspondence on grapheme-rich strings (segmentation as input)",
         text="Theorems: the ASCII form is chosen iff the string is ASCII without CR LF; its bytes are the string; otherwise one character per cluster (first code point, LF for CR LF); "
-             "length = number of clusters (ASCII branch under the explicit segmentation hypothesis AsciiSeg); slice/get/len agree with the content. All six constructors, a dirty "
-             "reused buffer, chars/rev/Display and random slices are compared with the model and with the content on every generated string.",
+             "length = number of clusters (ASCII branch under the explicit segmentation hypothesis AsciiSeg); slice/get/len agree with the content; C17_slice_ranges: the bound "
+             "arithmetic of Utf32Str::slice/slice_u32 and Utf32String::slice/slice_u32, regenerated from the source on every run, turns every pair of RangeBounds bounds into the window "
+             "they denote. All six constructors, a dirty reused buffer, chars/rev/Display and slices (every spelling of each range through all four functions) are compared with the "
+             "model and with the content on every generated string.",
         note="Trusted: Lean kernel, axioms, harness+driver. The unicode-segmentation crate's cluster boundaries are an input; AsciiSeg is a hypothesis exercised exhaustively for short ASCII strings."),
 })
 
